@@ -61,9 +61,16 @@ Succ(E) == LET x == ActOf(E)
            IN UNION { { W!Norm(pr[2]) : pr \in { q \in W!Step(s, x) : W!Match(Obs(E), q[1]) } } : s \in ms }
 Expected(E) == LET x == ActOf(E) IN UNION { { pr[1] : pr \in W!Step(s, x) } : s \in ms }
 
+\* "never a short read on a closed source" (doc/note/io-input-output.md: closed = no more bytes will come, so the
+\* suspension cannot be resolved).  The std decoders promise it in their public wrappers ("#truncated input"); the
+\* bare test object passes on what read_u8? says and is exempt.
+ShortReadBad(E) == IF (\E s \in ms : s.kind # "twocoro") /\ ~IO!Holds("ShortReadJustified", E, 4096)
+                   THEN {"ShortReadJustified"} ELSE {}
+
 CallBad(E) ==
     (IF Succ(E) = {} THEN { "Reply_expected_" \o p : p \in Expected(E) } ELSE {})
     \cup IOBad(E)
+    \cup ShortReadBad(E)
     \cup (IF "objchg" \in DOMAIN E /\ E.objchg
           THEN {IF E.op = "pure" THEN "PureCallChangedObject" ELSE "NullReceiverCallChangedObject"} ELSE {})
     \cup (IF "ssame" \in DOMAIN E /\ "sri0" \notin DOMAIN E /\ ~E.ssame THEN {"SrcUnchanged"} ELSE {})
